@@ -6,7 +6,8 @@
 //   - Sale: one signed MsgLightNodeSaleClaim of every validator in one block, tallied by the skyway end blocker,
 //   - SetFunders / SetFeegranter / SetSale: the governance proposal handlers of x/paloma and x/skyway called on
 //     the set-up context (what an executed proposal does), committed by the block,
-//   - Gift(keeper): a keeper-level bank transfer into the module account (what another module could do),
+//   - Gift(keeper): a keeper-level bank transfer (SendCoinsFromAccountToModule) into the module account (what
+//     another module could do),
 //   - Advance: a block whose time is the requested point of a client's vesting window.
 // The driver has no expectations: it records results and the projection of bank / auth / paloma / feegrant /
 // skyway state after every block.
@@ -378,7 +379,11 @@ func (w *world) do(act string, a args) outcome {
 		if a.Via == "tx" {
 			return fromTx(e.RunAs(w.acc(a.Who), banktypes.NewMsgSend(w.addr(a.Who), mod, coins)))
 		}
-		return w.setup(func(ctx sdk.Context) error { return app.BankKeeper.SendCoins(ctx, w.addr(a.Who), mod, coins) })
+		// the way a module moves coins into a module account (creates the module account if it does not exist yet;
+		// a raw SendCoins to the module ADDRESS would plant a plain account there and break GetModuleAccount)
+		return w.setup(func(ctx sdk.Context) error {
+			return app.BankKeeper.SendCoinsFromAccountToModule(ctx, w.addr(a.Who), palomatypes.ModuleName, coins)
+		})
 	case "Advance":
 		step := e.Opts.BlockTime
 		if acc, ok := app.AccountKeeper.GetAccount(e.Ctx(), w.addr(a.C)).(*vestingtypes.ContinuousVestingAccount); ok {
